@@ -1338,13 +1338,76 @@ fn decode_chunks(chunks: &[Vec<u8>]) -> Vec<String> {
 /// canonical texts of the events of a fresh `TTYEventDecoder` fed one slice per read
 fn decode_reads(chunks: &[&[u8]]) -> Vec<String> {
     let mut dec = TTYEventDecoder::new();
+    decode_reads_on(&mut dec, chunks, 0)
+}
+
+/// The ways the bytes of a read reach the decoder:
+/// 0 `Decoder::decode_into` over a `Cursor` (one call per read);
+/// 1 repeated `Decoder::decode` over a `Cursor` until it reports `None` — what `UnixTerminal::poll` does;
+/// 2 the reads written into the crate's own `IOQueue` (one chunk per read) used as the `BufRead`, `decode`
+///   repeated until the queue is drained — `fill_buf` then only ever offers the front chunk.
+const PATHS: [&str; 3] = ["decode_into/Cursor", "decode/Cursor", "decode/IOQueue"];
+
+fn decode_reads_on(dec: &mut TTYEventDecoder, chunks: &[&[u8]], path: usize) -> Vec<String> {
     let mut out = Vec::new();
+    if path == 2 {
+        use std::io::Write;
+        let r = guarded(|| {
+            let mut queue = surf_n_term::common::IOQueue::new();
+            let mut total = 0usize;
+            for chunk in chunks {
+                if !chunk.is_empty() {
+                    queue.write_all(chunk).unwrap();
+                    queue.flush().unwrap();
+                    total += chunk.len();
+                }
+            }
+            let mut evs = Vec::new();
+            // every call consumes at least one byte or drops an empty chunk: bounded
+            for _ in 0..(2 * total + 2 * chunks.len() + 4) {
+                let before = (queue.len(), queue.chunks_count());
+                match dec.decode(&mut queue) {
+                    Ok(Some(e)) => evs.push(show_event(&e)),
+                    Ok(None) => {
+                        if queue.len() == 0 {
+                            return (evs, "");
+                        }
+                        if (queue.len(), queue.chunks_count()) == before {
+                            return (evs, "STUCK");
+                        }
+                    }
+                    Err(_) => return (evs, "ERROR"),
+                }
+            }
+            (evs, "UNCONSUMED")
+        });
+        match r {
+            Ok((evs, note)) => {
+                out.extend(evs);
+                if !note.is_empty() {
+                    out.push(note.into());
+                }
+            }
+            Err(()) => out.push("PANIC".into()),
+        }
+        return out;
+    }
     let mut items = Vec::new();
     for chunk in chunks {
         let r = guarded(|| {
             let mut cur = Cursor::new(*chunk);
-            let r = dec.decode_into(&mut cur, &mut items);
-            (r.is_ok(), cur.position() as usize)
+            let ok = if path == 0 {
+                dec.decode_into(&mut cur, &mut items).is_ok()
+            } else {
+                loop {
+                    match dec.decode(&mut cur) {
+                        Ok(Some(e)) => items.push(e),
+                        Ok(None) => break true,
+                        Err(_) => break false,
+                    }
+                }
+            };
+            (ok, cur.position() as usize)
         });
         out.extend(items.drain(..).map(|e| show_event(&e)));
         match r {
@@ -1395,10 +1458,8 @@ fn prefix_keys() -> Vec<KeyRow> {
 
 /// `events::key_code` of a key given as (variant, payload, mode bits)
 fn code_of(k: (u64, u64, u64)) -> u64 {
-    match events::key_name_of_variant(k.0, k.1) {
-        Some(name) => events::key_code(&surf_n_term::Key { name, mode: events::mod_of_bits(k.2) }),
-        None => u64::MAX,
-    }
+    // the arithmetic of `SurfModel.Grammar.keyCode3`, from the raw numbers (no `KeyMod::from_bits`, no `Key`)
+    (k.0 * 4294967296 + k.1) * 512 + k.2
 }
 
 /// tokens above this size get no `pay decode` / `proto msg` / `gram match` lines
@@ -1414,6 +1475,10 @@ const MATCH_TOKEN: usize = 600;
 const MID_STREAM: usize = 1 << 10;
 
 struct Ctx {
+    /// one decoder object used for stream after stream
+    shared: TTYEventDecoder,
+    /// the stream the shared decoder decoded last
+    shared_history: Vec<u8>,
     dfa: Dfa,
     /// indices into `proto_keys()` of the documented prefix keys
     nonterminal: HashSet<usize>,
@@ -1438,7 +1503,7 @@ impl Ctx {
         let dfa = Dfa::new(verif_c04::event_dfa());
         let prefix: Vec<Vec<u8>> = prefix_keys().into_iter().map(|r| r.0).collect();
         let nonterminal = keys().iter().enumerate().filter(|(_, r)| prefix.contains(&r.0)).map(|(i, _)| i).collect();
-        Ctx { dfa, nonterminal, long_budget: if cfg.thorough { 200 } else { 40 }, long_stream_budget: if cfg.thorough { 500 } else { 80 }, match_budget: if cfg.thorough { 100 } else { 20 }, seen: HashSet::new(), budget: if cfg.thorough { 900_000 } else { 260_000 }, streams: 0, samples: 0, stream_budget: if cfg.thorough { 150_000 } else { 15_000 } }
+        Ctx { shared: TTYEventDecoder::new(), shared_history: vec![], dfa, nonterminal, long_budget: if cfg.thorough { 200 } else { 40 }, long_stream_budget: if cfg.thorough { 500 } else { 80 }, match_budget: if cfg.thorough { 100 } else { 20 }, seen: HashSet::new(), budget: if cfg.thorough { 900_000 } else { 260_000 }, streams: 0, samples: 0, stream_budget: if cfg.thorough { 150_000 } else { 15_000 } }
     }
     fn is_nonterminal(&self, m: &Msg) -> bool {
         matches!(m, Msg::Key(i) if self.nonterminal.contains(i))
@@ -1660,32 +1725,65 @@ impl Expect {
 }
 
 /// decode `stream` under the partitions and compare with `expected`; returns `true` when all agree
-fn check_stream(out: &mut Out, stream: &[u8], wires: &[String], expected: &Expect, parts: &[Vec<usize>]) -> bool {
+/// `all_paths`: every partition through every way of feeding the decoder (replay); otherwise partition `i`
+/// goes through path `i % 3`
+fn check_stream(out: &mut Out, stream: &[u8], wires: &[String], expected: &Expect, parts: &[Vec<usize>], all_paths: bool) -> bool {
     let mut ok = true;
     let mut first: Option<Vec<String>> = None;
     let mut cut_reported = false;
-    let input = |lens: &[usize]| {
+    let input = |lens: &[usize], path: usize| {
         json!({"stream": hex(stream), "msgs": wires, "partition": chunks_json(stream, lens), "expected": expected.events,
-               "optional_tail": expected.tail})
+               "optional_tail": expected.tail, "path": PATHS[path]})
     };
-    for lens in parts {
-        let got = decode_reads(&chunks_of(stream, lens));
-        if !expected.admits(&got) {
-            ok = false;
-            out.fail(WHAT_STREAM, input(lens), expected.json(), json!(got));
-        }
-        match &first {
-            None => first = Some(got),
-            Some(f) => {
-                if *f != got && !cut_reported {
-                    cut_reported = true;
-                    ok = false;
-                    out.fail(WHAT_CUT, input(lens), json!(f), json!(got));
+    for (i, lens) in parts.iter().enumerate() {
+        let paths: Vec<usize> = if all_paths { vec![0, 1, 2] } else { vec![i % 3] };
+        for path in paths {
+            let mut dec = TTYEventDecoder::new();
+            let got = decode_reads_on(&mut dec, &chunks_of(stream, lens), path);
+            if !expected.admits(&got) {
+                ok = false;
+                out.fail(WHAT_STREAM, input(lens, path), expected.json(), json!(got));
+            }
+            match &first {
+                None => first = Some(got),
+                Some(f) => {
+                    if *f != got && !cut_reported {
+                        cut_reported = true;
+                        ok = false;
+                        out.fail(WHAT_CUT, input(lens, path), json!(f), json!(got));
+                    }
                 }
             }
         }
     }
     ok
+}
+
+const WHAT_HISTORY: &str = "decoded events depend on what the same decoder decoded before";
+
+/// One decoder object for the whole run (state carried between calls): a stream that leaves nothing pending
+/// must decode on it exactly as on a fresh decoder. After a failure (or a stream that may leave bytes pending)
+/// the object is replaced.
+fn check_long_lived(ctx: &mut Ctx, out: &mut Out, stream: &[u8], wires: &[String], expected: &Expect) {
+    if expected.tail.is_some() {
+        ctx.shared = TTYEventDecoder::new();
+        ctx.shared_history = vec![];
+        return;
+    }
+    let lens = vec![stream.len()];
+    let got = decode_reads_on(&mut ctx.shared, &chunks_of(stream, &lens), 1);
+    if got != expected.events {
+        out.fail(
+            WHAT_HISTORY,
+            json!({"stream": hex(stream), "msgs": wires, "expected": expected.events, "history": hex(&ctx.shared_history), "kind": "history"}),
+            expected.json(),
+            json!(got),
+        );
+        ctx.shared = TTYEventDecoder::new();
+        ctx.shared_history = vec![];
+    } else {
+        ctx.shared_history = stream.to_vec();
+    }
 }
 
 fn events_text(evs: &[String]) -> String {
@@ -1753,6 +1851,7 @@ fn run_case(ctx: &mut Ctx, out: &mut Out, rng: &mut Rng, msgs: &[Msg], expected_
     for m in msgs {
         stream.extend(print(m));
     }
+    let expected_override_none = expected_override.is_none();
     let expected = expected_override.unwrap_or_else(|| match msgs.split_last() {
         // a prefix key at the end of the stream may or may not be delivered
         Some((last, init)) if ctx.is_nonterminal(last) => {
@@ -1762,7 +1861,14 @@ fn run_case(ctx: &mut Ctx, out: &mut Out, rng: &mut Rng, msgs: &[Msg], expected_
     });
     let wires: Vec<String> = msgs.iter().map(wire).collect();
     let parts = vec![partition(rng, stream.len(), 0), partition(rng, stream.len(), 1), partition(rng, stream.len(), 2)];
-    check_stream(out, &stream, &wires, &expected, &parts);
+    let exact = expected_override_none;
+    check_stream(out, &stream, &wires, &expected, &parts, false);
+    if exact {
+        check_long_lived(ctx, out, &stream, &wires, &expected);
+    } else {
+        ctx.shared = TTYEventDecoder::new();
+        ctx.shared_history = vec![];
+    }
     stream_lines(ctx, out, rng, &stream);
     let nontrivial = msgs.iter().any(|m| !matches!(family(m), 0 | 12));
     out.case(&hex(&stream), nontrivial);
@@ -2118,6 +2224,18 @@ fn palette_check(out: &mut Out) {
 /* ================================================================ fixed correspondence lines */
 
 fn fixed_lines(out: &mut Out, rng: &mut Rng) {
+    // `KeyMod::from_bits` (src/keys.rs) on both sides of its mask and of the u32 conversion: kitty modifier
+    // fields 1 + mask with masks around 255 / 511 / 512 / 2^32; mouse codes around the modifier bits
+    for n in [1u64, 2, 128, 129, 255, 256, 257, 258, 511, 512, 513, 514, 1024, 1025, 65536, 4294967296, 4294967297, 4294967298, 4294967808] {
+        let tok = format!("\x1b[97;{n}u").into_bytes();
+        out.corr(&format!("pay decode 6 {}", hex(&tok)), &real_decode(6, &tok));
+    }
+    for code in [0u64, 3, 4, 28, 31, 32, 35, 60, 63, 64, 67, 92, 95, 96, 127, 128, 131, 255, 256, 260, 4294967296 + 4] {
+        for fin in ["M", "m"] {
+            let tok = format!("\x1b[<{code};7;9{fin}").into_bytes();
+            out.corr(&format!("pay decode 7 {}", hex(&tok)), &real_decode(7, &tok));
+        }
+    }
     for n in 0..=2100usize {
         out.corr(&format!("pay decmode {n}"), &DecMode::from_usize(n).map(|m| events::dec_mode_number(m).to_string()).unwrap_or("none".into()));
     }
@@ -2223,6 +2341,16 @@ fn corpus(ctx: &Ctx, rng: &mut Rng) -> Vec<(Vec<Msg>, Option<Expect>)> {
         msgs.extend(tail.chars().map(|ch| Msg::Text(ch as u32)));
         c.push((msgs.clone(), None));
         msgs.push(Msg::Cursor { row: 10, col: 20 });
+        c.push((msgs, None));
+    }
+    // many events out of one read (loops that collect items must not stop early): 450 messages in one stream
+    {
+        let mut msgs = vec![];
+        for i in 0..150u64 {
+            msgs.push(Msg::Text(b'a' as u32 + (i % 26) as u32));
+            msgs.push(Msg::Cursor { row: i + 2, col: 2 * i + 9 });
+            msgs.push(Msg::Mouse { code: i % 128, x: i + 1, y: 150 - i, press: i % 2 == 0 });
+        }
         c.push((msgs, None));
     }
     let mut one = |m: Msg| c.push((vec![m], None));
@@ -2465,7 +2593,17 @@ fn replay(out: &mut Out, rng: &mut Rng, v: &Value) {
         Some(p) if p.iter().map(|c| unhex(c)).collect::<Vec<_>>().concat() == stream => parts.push(p.iter().map(|c| unhex(c).len()).collect()),
         _ => parts.push(partition(rng, stream.len(), 2)),
     }
-    let ok = check_stream(out, &stream, &wires, &expected, &parts);
+    if kind == "history" {
+        // the stream after its recorded predecessor on one decoder
+        let history = unhex(input["history"].as_str().unwrap_or("-"));
+        let mut dec = TTYEventDecoder::new();
+        let _ = decode_reads_on(&mut dec, &[&history[..]], 1);
+        let got = decode_reads_on(&mut dec, &[&stream[..]], 1);
+        if got != expected.events {
+            out.fail(WHAT_HISTORY, input.clone(), expected.json(), json!(got));
+        }
+    }
+    let ok = check_stream(out, &stream, &wires, &expected, &parts, true);
     out.case(&hex(&stream), true);
     out.extra("replay", json!({"stream": hex(&stream), "agrees": ok}));
 }
@@ -2491,6 +2629,6 @@ pub fn run(cfg: &Cfg, out: &mut Out, rng: &mut Rng) {
         let msgs = gen_stream(&ctx, rng);
         run_case(&mut ctx, out, rng, &msgs, None);
     }
-    out.extra("streams", json!({"corpus": corpus_streams, "generated": n, "partitions_each": 3}));
+    out.extra("streams", json!({"corpus": corpus_streams, "generated": n, "partitions_each": 3, "paths": PATHS, "long_lived_decoder": true}));
     out.extra("correspondence_budget_left", json!({"lines": ctx.budget, "long_tokens": ctx.long_budget, "composed_streams": ctx.stream_budget, "composed_long_streams": ctx.long_stream_budget, "match_mid_tokens": ctx.match_budget}));
 }
